@@ -301,7 +301,11 @@ cgsitrf(superlu_options_t *options, SuperMatrix *A, int relax, int panel_size,
     for (k = 0; k < n; k++) iswap[k] = perm_c[k];
     amax = (float *) SUPERLU_MALLOC(panel_size * sizeof(float));
     if (drop_rule & DROP_SECONDARY)
-	swork2 = SUPERLU_MALLOC(n * sizeof(float));
+	/* A U column is gathered from the segments found by the panel search and by the
+	   column search; the one supernode that began before the panel and was extended
+	   inside it is listed by both, so up to 2*n entries can be gathered before the
+	   secondary dropping rule copies them into this array. */
+	swork2 = SUPERLU_MALLOC(2 * (size_t) n * sizeof(float));
     else
 	swork2 = NULL;
 
